@@ -201,3 +201,11 @@ PROPS["C04"]["rule"] += ("; plus bounded-exhaustive enumeration: all sequences u
                          "missing path, path through a file, symlink loop, 300-byte name; 8 filesystem mutations), WatchList after every step, spelling chosen per occurrence from 7 forms, final probe for duplicate events")
 _parts("C12", dict(pkg="props", test="TestC12Soak", single=True))
 PROPS["C12"]["rule"] += "; plus a soak of 150 (quick) / 2000 (thorough) add/hard-link/delete/recreate/re-add/remove cycles on one Watcher with the kernel-mark comparison after every cycle"
+
+
+# coverage-guided native fuzzing, thorough tier only (Go's fuzzer cannot be seeded; failing inputs are saved)
+PROPS["C20"]["parts"] += [dict(pkg="ztestprop", fuzz="FuzzC20Diff", test="FuzzC20Diff", replay_test="TestReplayC20", gen="ztest", single=True, tiers=["thorough"], fuzztime="60s"),
+                          dict(pkg="ztestprop", fuzz="FuzzC20Match", test="FuzzC20Match", replay_test="TestReplayC20", gen="ztest", single=True, tiers=["thorough"], fuzztime="60s")]
+PROPS["C20"]["rule"] += "; thorough tier adds 2 x 60 s of Go native coverage-guided fuzzing of the same generators/oracles through rapid.MakeFuzz"
+PROPS["C16"]["parts"] += [dict(pkg="e3", fuzz="FuzzC16", test="FuzzC16", replay_test="TestReplayC16", single=True, tiers=["thorough"], fuzztime="60s")]
+PROPS["C16"]["rule"] += "; thorough tier adds 60 s of Go native coverage-guided fuzzing over (op, probe, name, old name)"
